@@ -5,6 +5,7 @@
 #include <cstdlib>
 #include <map>
 #include <sstream>
+#include <trompeloeil/stream_tracer.hpp>
 
 namespace w {
 
@@ -30,6 +31,15 @@ struct RecTracer : trompeloeil::tracer {
   }
 };
 
+// the library's own stream_tracer writing to a string stream; drained into the same trace log
+struct StreamTr {
+  int id;
+  std::ostringstream os;
+  trompeloeil::stream_tracer tr;
+  explicit StreamTr(int i) : id(i), tr(os) {}
+};
+struct TracerSlot { std::unique_ptr<RecTracer> rec; std::unique_ptr<StreamTr> st; };
+
 struct State {
   Mk* mock[NOBJ] = {};
   std::vector<Mk*> husk;
@@ -39,7 +49,7 @@ struct State {
   deathwatched<Dwt>* dw[NDW] = {};
   ExpPtr mon[NDW][NMON];
   unsigned long monline[NDW][NMON] = {};
-  std::vector<std::unique_ptr<RecTracer>> tracers;
+  std::vector<TracerSlot> tracers;
   int tracer_ids = 0;
   int gen = 0;
   int okgen = 0;
@@ -343,8 +353,47 @@ void recreate_dw(int d) { if (!S->dw[d]) S->dw[d] = new deathwatched<Dwt>(d); }
 std::string dw_addr(int d) { std::ostringstream os; os << static_cast<void const*>(S->dw[d]); return os.str(); }
 
 int tracer_depth() { return static_cast<int>(S->tracers.size()); }
-void push_tracer() { S->tracers.push_back(std::make_unique<RecTracer>(S->tracer_ids++)); }
-void pop_tracer() { S->tracers.pop_back(); }
+void push_tracer(int kind) {
+  TracerSlot t;
+  if (kind == 1) t.st = std::make_unique<StreamTr>(S->tracer_ids++);
+  else t.rec = std::make_unique<RecTracer>(S->tracer_ids++);
+  S->tracers.push_back(std::move(t));
+}
+void pop_tracer() { drain_stream_tracers(); S->tracers.pop_back(); }
+void drain_stream_tracers() {
+  for (auto& t : S->tracers) {
+    if (!t.st) continue;
+    std::string all = t.st->os.str();
+    if (all.empty()) continue;
+    t.st->os.str("");
+    // records: "<file>:<line>\n<text>\n"; a header line is a known site file followed by ':' and digits
+    std::vector<std::string> lines;
+    { std::istringstream in(all); std::string l; while (std::getline(in, l)) lines.push_back(l); }
+    auto header = [&](const std::string& l, std::string& file, unsigned long& line) {
+      auto c = l.rfind(':');
+      if (c == std::string::npos || c + 1 >= l.size()) return false;
+      for (size_t i = c + 1; i < l.size(); ++i) if (!isdigit(static_cast<unsigned char>(l[i]))) return false;
+      file = l.substr(0, c);
+      bool known = file == mon_file();
+      for (int k = 0; k < NSLOT + NLIT && !known; ++k) if (file == slot_file(k)) known = true;
+      if (!known) return false;
+      line = strtoul(l.c_str() + c + 1, nullptr, 10);
+      return true;
+    };
+    RTrace cur{t.st->id, "", 0, ""};
+    bool open = false;
+    for (auto& l : lines) {
+      std::string f; unsigned long ln = 0;
+      if (header(l, f, ln)) {
+        if (open) g_log.traces.push_back(cur);
+        cur = RTrace{t.st->id, f, ln, ""};
+        open = true;
+      } else if (open) cur.text += l + "\n";
+      else g_log.traces.push_back(RTrace{t.st->id, "?", 0, l});  // text without a location header
+    }
+    if (open) g_log.traces.push_back(cur);
+  }
+}
 int reporter_gen() { return S->gen; }
 
 bool swap_reporter(bool with_ok) {
